@@ -49,15 +49,17 @@ void h_pnum_int(void) {
     if (fits_s) { VASSERT(k == 2, "negative integer literal >= -2^63 is a signed integer"); VASSERT(i64 == (uint64_t)0 - (uint64_t)val, "exact value"); VWITNESS("exact"); }
     else { VASSERT(k == 1 || k == 4, "integer literal < -2^63 becomes a floating kind"); VWITNESS("big"); }
   }
+#if LEN >= 20
   if (k == 1 || k == 4) {
-    /* the scaled pair must denote the literal up to dropped low digits: m*10^e <= val < (m+1)*10^e, and m >= 2^52/10 */
+    /* the scaled pair must denote the literal up to dropped low digits: m*10^e <= val < (m+1)*10^e */
     VASSERT(g_mf_calls >= 1 && g_mf_calls <= 2, "scaling invoked (a second, double-precision attempt is allowed)");
     if (!big) {
-      u128 m = (u128)g_mf_m; VASSERT((double)(uint64_t)m == g_mf_m, "mantissa is an integer"); VASSERT(g_mf_e >= 0 && g_mf_e <= 30, "exponent offset counts the dropped digits");
-      u128 p = 1; for (int j = 0; j < 30; j++) if (j < g_mf_e) p *= 10;
-      VASSERT(m * p <= val && val < (m + 1) * p, "mantissa x 10^exponent is the literal truncated to the kept digits (never a wrong magnitude)");
+      u128 m = (u128)g_mf_m; VASSERT((double)(uint64_t)m == g_mf_m, "mantissa is an integer"); VASSERT(g_mf_e >= 0 && g_mf_e <= 12, "exponent offset counts the dropped digits");
+      static const uint64_t P10[13] = {1ULL, 10ULL, 100ULL, 1000ULL, 10000ULL, 100000ULL, 1000000ULL, 10000000ULL, 100000000ULL, 1000000000ULL, 10000000000ULL, 100000000000ULL, 1000000000000ULL};
+      for (int j = 0; j <= 12; j++) if (g_mf_e == j) VASSERT(m * P10[j] <= val && val < (m + 1) * P10[j], "mantissa x 10^exponent is the literal truncated to the kept digits (never a wrong magnitude)");
     }
   }
+#endif
 }
 
 #ifndef NB
